@@ -33,7 +33,11 @@ static std::string tokensText() {
   return text;
 }
 static std::string holesText() {
-  static const char* const TEMPL[] = {"pr#(S1)", "Pr#(S1)", "Pr1,#(S1)", "Fi#[X1](S1)", "Fi1,#[X1,X1](S1)", "F1[#, X1]", "card(#)", "#+1", "X1\\#", "{#}", "D{\xCE\xBE\xE2\x88\x88X1 | \xCE\xBE=#}"};
+  static const char* const TEMPL[] = {"pr#(S1)", "Pr#(S1)", "Pr1,#(S1)", "Fi#[X1](S1)", "Fi1,#[X1,X1](S1)", "F1[#, X1]", "card(#)", "#+1", "X1\\#", "{#}", "D{\xCE\xBE\xE2\x88\x88X1 | \xCE\xBE=#}",
+    // a hole (any 1-2 bytes, e.g. the name of a global of any kind) in every remaining position that takes an operand
+    "I{a | a:=#}", "I{a | a:\xE2\x88\x88#}", "I{# | a:\xE2\x88\x88X1}", "R{\xCE\xBE:=# | \xCE\xBE}", "R{\xCE\xBE:=X1 | # | \xCE\xBE}", "\xE2\x88\x80" "a\xE2\x88\x88# a=a", "\xE2\x88\x80" "a\xE2\x88\x88X1 #",
+    "[\xCE\xB1\xE2\x88\x88#] \xCE\xB1", "debool(#)", "bool(#)", "red(#)", "\xE2\x84\xAC(#)", "(#,X1)", "#\xC3\x97X1", "Fi1[#](S1)", "Fi1[X1](#)", "P1[#]", "pr1(#)", "Pr1(#)", "#=X1", "\xC2\xAC#", "#&1=1",
+    "S9::=#", "D9:==#", "{X1,#}", "X1\xE2\x88\x88#", "1<#"};
   int t = sym_concretize_i32(sym_range(0, (int)(sizeof(TEMPL) / sizeof(TEMPL[0])) - 1, "template"));
   std::string text;
   for (const char* p = TEMPL[t]; *p; ++p) {
